@@ -170,3 +170,8 @@ func ActiveArtela(fork string) []uint64 {
 }
 
 var _ = params.MainnetChainConfig
+
+// ArtelaOpName / UpstreamOpName: OpCode(i).String(); ArtelaStringToOp: vm.StringToOp
+func ArtelaOpName(i int) string     { return vm.OpCode(i).String() }
+func UpstreamOpName(i int) string   { return ethvm.OpCode(i).String() }
+func ArtelaStringToOp(s string) int { return int(vm.StringToOp(s)) }
